@@ -791,6 +791,9 @@ func checkC11(c *Ctx) {
 			if strings.Count(f, "*") == 1 {
 				args = []interface{}{a, 5, "tail"}
 			}
+			if strings.Contains(f, "070") || strings.Contains(f, "0100") {
+				args = append(args, 7)
+			}
 			w.Eval()
 			var out redact.RedactableString
 			if pv, pan := recoverTo(func() {
@@ -803,7 +806,7 @@ func checkC11(c *Ctx) {
 				}
 			}); pan {
 				w.Fail("star-operands", map[string]interface{}{"F": f, "A": fmt.Sprintf("%T(%v)", a, a), "B": fmt.Sprintf("%T(%v)", b, b)}, fmt.Sprintf("Sprintf(%q, %T(%v), %T(%v), ...) panics: %v", f, a, a, b, b, pv))
-			} else if !strings.HasSuffix(string(Strip([]byte(out))), "tail") {
+			} else if !strings.Contains(string(Strip([]byte(out))), "tail") {
 				w.Fail("star-operands", map[string]interface{}{"F": f, "A": fmt.Sprintf("%T(%v)", a, a), "B": fmt.Sprintf("%T(%v)", b, b)}, fmt.Sprintf("Sprintf(%q, %T(%v), %T(%v), ...) = %q loses the rest of the line", f, a, a, b, b, out))
 			}
 		}
